@@ -28,7 +28,9 @@ REQUIRED_THEOREMS = ['octet_lang', 'ipv4_lang', 'ipv4_sound', 'prefix_ipv4_unsou
                      'drop_zeros_same_address', 'drop_zeros_canonical', 'drop_zeros_groupwise', 'ip_extract_sound',
                      'ip_extract_v4_valid', 'guid_lang', 'guid_sound', 'guid_complete_unique_plain',
                      'guid_complete_unique_braced', 'guid_extract_sound', 'hextet_lang', 'ipv6_lang',
-                     'ipv6_sound', 'ipv6_complete', 'drop_zeros_group_value']
+                     'ipv6_sound', 'ipv6_complete', 'drop_zeros_group_value', 'hashtag_lang',
+                     'hashtag_reported_span', 'mention_lang', 'mention_unique', 'mention_reported_span',
+                     'real_tagchars_are_word', 'email_lang']
 RULE = ('regex correspondence: per translated pattern, strings sampled from the pattern, mutated, embedded in contexts '
         'built from the pattern\'s own class boundaries; unit: drop_leading_zeros / extractors / score_guid on IP- and '
         'GUID-shaped strings with ellipsis boundary contexts; pipeline: boundary octets {0,9,10,99,100,199,200,249,250,255}^4 '
@@ -38,7 +40,7 @@ RULE = ('regex correspondence: per translated pattern, strings sampled from the 
 ASSUMPTIONS = ['`regex` module tables for \\d \\w \\s exported by brute force from the running module (RTV/Gen/Regexes.lean)',
                '`finditer` is modelled as leftmost start / first end in backtracking priority order (validated by the regex correspondence)',
                'QueryProcessor.preprocess (lower-casing, full-width folding) is not modelled; pipeline carriers avoid code points whose lower-casing changes length',
-               'e-mail / URL / hashtag / mention / phone number: correspondence only (no theorem)']
+               'URL / phone number: regexes translated and validated by the regex correspondence, recognition itself correspondence only (no theorem: URL validity reads named capture groups, the matcher has no captures; phone = ten patterns + score filters); e-mail / hashtag / mention: language theorems for the regexes, extractor glue by correspondence']
 
 BOUNDARY = [0, 9, 10, 99, 100, 199, 200, 249, 250, 255]
 CARRIERS = ['{}', 'ip {} here', '({})', '{}, next', 'at {}.', 'x={};', '"{}"', ' {} ', 'see\t{}\nok']
